@@ -85,6 +85,8 @@ func raceReadOps(t *Target, msg proto.Message, other proto.Message, order int) s
 
 // C11: concurrent readers of a shared message. Built with -race by the check; a race report is
 // written to $GORACE log_path and turned into a violation by the check script.
+const gorBig = 8
+
 func runRace(cfg *Cfg) {
 	out := newOut(cfg.Out, "race")
 	defer out.Close()
@@ -119,6 +121,73 @@ func runRace(cfg *Cfg) {
 		}
 		wg.Wait()
 		out.res.Stats["cold_start_types"] = len(targets)
+	}
+	// large messages (encoded size beyond 64 KiB and beyond 1 MiB): buffers recycled between calls, or handed
+	// out while still owned by a pool, only show with big encodings and overlapping Marshal calls
+	bigTargets := 0
+	for _, t := range targets {
+		if bigTargets >= 6 && cfg.Tier != "thorough" {
+			break
+		}
+		bj := -1
+		for j, f := range t.S.Msgs[0].Fields {
+			if !f.IsMsg && f.Shape == vschema.Singular && (f.Kind == vschema.Bytes || f.Kind == vschema.String) {
+				bj = j
+				break
+			}
+		}
+		if bj < 0 {
+			continue
+		}
+		bigTargets++
+		for _, size := range []int{96 << 10, (1 << 20) + 4096} {
+			var msgs []proto.Message
+			var want [][]byte
+			for k := 0; k < 2; k++ {
+				v := vval.Empty(t.S, 0)
+				blob := make([]byte, size+k*37)
+				for i := range blob {
+					blob[i] = byte('a' + (i+k)%23)
+				}
+				v.Kids[bj] = vval.VBlob(true, blob)
+				m := t.B.ToMessage(0, v)
+				b, err := proto.MarshalOptions{Deterministic: true}.Marshal(m)
+				if err != nil {
+					continue
+				}
+				msgs, want = append(msgs, m), append(want, append([]byte(nil), b...))
+			}
+			if len(msgs) < 2 {
+				continue
+			}
+			var wg sync.WaitGroup
+			var mu sync.Mutex
+			bad := 0
+			for g := 0; g < gorBig; g++ {
+				wg.Add(1)
+				go func(g int) {
+					defer wg.Done()
+					for it := 0; it < 6; it++ {
+						k := (g + it) % 2
+						b, err := proto.MarshalOptions{Deterministic: it%2 == 0}.Marshal(msgs[k])
+						sz := proto.Size(msgs[k])
+						ok := err == nil && sz == len(want[k]) && string(b) == string(want[k])
+						if !ok {
+							mu.Lock()
+							bad++
+							mu.Unlock()
+						}
+					}
+				}(g)
+			}
+			wg.Wait()
+			out.Case(fmt.Sprintf("race-big:%s:%d", t.Full, size), true)
+			out.Count("race_big_message_cases")
+			if bad > 0 {
+				out.Violate("C11", "concurrent-read-differs", fmt.Sprintf("%d concurrent Marshal/Size calls on two large shared messages (%d bytes) returned something else than the sequential result", bad, size),
+					fmt.Sprintf("race-big %s field index %d size %d", t.Full, bj, size))
+			}
+		}
 	}
 	r := vschema.NewRand(cfg.Seed + 11)
 	vals := 6
